@@ -363,3 +363,60 @@ def lin_triage(ctx, res, layer):
         text = "concurrent history %s has no linearization: longest explained prefix %d of %d lines; next line %s" % (
             head.get("tr"), r["matched"], r["total"], json.dumps(nxt)[:400])
         vf.report(ctx, sig, text, {"layer": layer, "backend": backend, "trace_file": keep, "matched": r["matched"]})
+
+
+
+def pull_part(ctx, n, ops, big_every):
+    """L1 part of C04 / C05: lease-heavy schedules executed THROUGH the pull API (HTTP and gRPC) of production-wired
+    instances on both backends, validated by PullTrace (status mapping, idempotent duplicate rule, max_batch cap)."""
+    vf.build_hkv()
+    shards = vf.NCPU
+    out = os.path.join(ctx.shm, "pull-trace")
+
+    def go(prefix):
+        info = json.loads(vf.hkv(["pull-run", "-seed", str(ctx.seed), "-n", str(n), "-ops", str(ops), "-out", prefix, "-shards", str(shards),
+                                  "-big-every", str(big_every), "-scratch", ctx.shm]).strip().splitlines()[-1])
+        files = [f for f in ["%s.%d" % (prefix, i) for i in range(shards)] if os.path.exists(f) and os.path.getsize(f) > 0]
+        return info, files, vf.tv_run(ctx, files, module="PullTrace", name="tv-pull", spec="PullSpec")
+
+    def sigs(res):
+        found = {}
+        for r in res:
+            if r["error"]:
+                raise vf.Infra("PullTrace error: %s\n%s" % (r["error"], r.get("out_tail", "")))
+            events = vf.load_trace(r["file"])
+            fails = list(r["fails"])
+            if r["matched"] < r["total"]:
+                fails.append((r["matched"] + 1, events[r["matched"]].get("ev", "?"), "rejected"))
+            for (line, ev, check) in fails:
+                e = events[line - 1]
+                a = e.get("a", {})
+                sig = "L1/pull/%s/%s/%s/%s" % (ev, check, a.get("transport", ""), a.get("kind", "single" if a.get("single") else ""))
+                nm, _ = vf.trace_of_line(events, line)
+                found.setdefault(sig, (nm, e))
+        return found
+
+    info, files, res = go(out)
+    ctx.cov["traces_validated_against_impl"] += info["traces"]
+    ctx.cov["schedules_executed"] += info["traces"]
+    stats = {"idempotent": 0, "conflict409": 0, "grpc": 0, "big_dequeues": 0}
+    for f in files:
+        for e in vf.load_trace(f):
+            if e["ev"] == "PullLease":
+                stats["conflict409"] += 1 if e["r"]["status"] == 409 else 0
+                stats["grpc"] += 1 if e["a"]["transport"] == "grpc" else 0
+            if e["ev"] == "PullDequeue" and len(e["r"]["items"]) >= 100:
+                stats["big_dequeues"] += 1
+    for k, v in stats.items():
+        ctx.count("pull_" + k, v)
+    if stats["conflict409"] == 0 or stats["grpc"] == 0:
+        raise vf.Infra("vacuous pull-API run: %s" % stats)
+    first = sigs(res)
+    if first:
+        _, _, res2 = go(out + "-repro")
+        second = sigs(res2)
+        for sig, (nm, e) in sorted(first.items()):
+            if sig not in second:
+                raise vf.Infra("pull-API divergence %s did not reproduce" % sig)
+            vf.report(ctx, sig, "%s in %s: args %s result %s" % (sig, nm, json.dumps(e.get("a"))[:300], json.dumps(e.get("r"))[:300]),
+                      {"layer": "L1", "seed": ctx.seed, "trace": nm, "event": e, "cmd": "hkv pull-run -seed %d -n %d -ops %d -big-every %d" % (ctx.seed, n, ops, big_every)})
